@@ -1496,7 +1496,7 @@ match_rule_equal (BusMatchRule *a,
       strcmp (a->member, b->member) != 0)
     return FALSE;
 
-  if ((a->flags & BUS_MATCH_PATH) &&
+  if ((a->flags & (BUS_MATCH_PATH | BUS_MATCH_PATH_NAMESPACE)) &&
       strcmp (a->path, b->path) != 0)
     return FALSE;
 
